@@ -104,7 +104,7 @@ def random_step(rng, pool):
         else:
             m = rng.choice(['JACCARD', 'COSINE', 'DICE', 'OVERLAP', 'EDIT_DISTANCE'])
             f = {'kind': kind, 'measure': m, 'allow_empty': rng.random() < 0.6,
-                 'allow_missing': rng.random() < 0.3}
+                 'allow_missing': rng.random() < 0.3, 'measure_spelling': gen.spell(rng, m)}
             if m == 'OVERLAP':
                 f['threshold'] = rng.choice([1, 2])
             elif m == 'EDIT_DISTANCE':
@@ -112,7 +112,12 @@ def random_step(rng, pool):
             else:
                 f['threshold'] = gen.random_threshold(rng)
             step['tok'] = rng.choice(['QB', 'QS']) if m == 'EDIT_DISTANCE' else rng.choice(['S', 'B', 'QB', 'QS'])
-        which = rng.choice(['filter_tables', 'filter_pair', 'filter_candset'])
+        prev = pool.setdefault('_filters', [])
+        if prev and rng.random() < 0.5:
+            f, step['tok'] = rng.choice(prev)
+        else:
+            prev.append((f, step['tok']))
+        which = rng.choice(['filter_tables', 'filter_tables', 'filter_pair', 'filter_candset'])
         call = dict(base, api=which, filter=f)
         if which == 'filter_pair':
             call['lstring'] = rng.choice(L['data']['lattr'] or ['a'])
@@ -172,6 +177,7 @@ def run_case(case, rec, ssj=None):
     toks['D'] = default_tok
     nsteps = rng.randint(6, 16)
     flips_total, completed = 0, 0
+    shared_filters = {}      # filter objects live across calls, as in user code
     for k in range(nsteps):
         step = random_step(rng, pool)
         call = step['call']
@@ -194,7 +200,17 @@ def run_case(case, rec, ssj=None):
             shared.pop('tok')
         elif tokname:
             run_call['tok'] = TOKS[tokname]
-        snaps = dict((n, T.snapshot_df(o)) for n, o in shared.items() if n != 'tok')
+        if 'filter' in call and tokname and tokname != 'D':
+            fkey = (tokname, repr(sorted(call['filter'].items())))
+            if fkey not in shared_filters and len(shared_filters) < 4 and rng.random() < 0.7:
+                try:
+                    shared_filters[fkey] = T.make_filter(ssj, call['filter'], toks[tokname])
+                except Exception:
+                    pass
+            if fkey in shared_filters:
+                shared['filter'] = shared_filters[fkey]
+                rec.count('calls_on_shared_filter_objects')
+        snaps = dict((n, T.snapshot_df(o)) for n, o in shared.items() if n not in ('tok', 'filter'))
         # every other shared object must stay untouched too (a call must not reach beyond its arguments)
         all_before = [T.snapshot_df(o) for o in objs['l'] + objs['r']] if k % 4 == 0 else None
         tok_obj = toks.get(tokname) if tokname else None
@@ -210,7 +226,7 @@ def run_case(case, rec, ssj=None):
         where = 'history seed=%d step %d/%d %s ' % (case['seed'], k, nsteps, api)
         # (i) inputs untouched
         for n, o in shared.items():
-            if n == 'tok':
+            if n in ('tok', 'filter'):
                 continue
             after = T.snapshot_df(o)
             rec.count('snapshots_compared')
